@@ -435,3 +435,133 @@ Lemma example_multi_limit :
                       1700000005000000000 1 in
   mwf mi = true /\ mo_code (mmodel mi) = 11%N /\ mo_fetched (mmodel mi) = [0%N].
 Proof. repeat split; vm_compute; reflexivity. Qed.
+
+(* ---------- one signature, verified at a given time ---------- *)
+
+Lemma expired_exp_env_i : forall vnow i a an, expired vnow (exp_env descr idc i a an) = input_expired vnow i.
+Proof.
+  intros. unfold expired, exp_env, exp_expiry, input_expired. cbn [e_expiry].
+  destruct (i_dur i =? 0)%Z; reflexivity.
+Qed.
+
+Lemma model_unfold : forall i,
+  model i = let s := csign i in
+            match r_env descr s with
+            | None => mk_obs (r_err descr s) (r_shash descr s) (r_plugsig descr s) (r_plugenv descr s) None 7 None None None
+            | Some e =>
+                let v := verify descr dec_descr true i e in
+                mk_obs (r_err descr s) (r_shash descr s) (r_plugsig descr s) (r_plugenv descr s)
+                       (Some (view descr dec_descr (fun _ => ["targetArtifact"]) present_keys e))
+                       (v_code v) (v_hash v) (v_ret v) (v_meta v)
+            end.
+Proof. reflexivity. Qed.
+
+(* before the expiry the clock does not matter: the timed model is the model of C07_Property *)
+Lemma model_at_before : forall vnow i, wf i = true -> input_expired vnow i = false -> model_at vnow i = model i.
+Proof.
+  intros vnow i Hwf Hex. destruct (wf_row i Hwf) as (kn & a & hn & an & Hrow).
+  rewrite model_unfold. unfold model_at. cbv zeta. rewrite (csign_closed i kn a hn an Hwf Hrow).
+  cbn [r_env r_err r_shash r_plugsig r_plugenv]. unfold verify_at. rewrite expired_exp_env_i, Hex.
+  destruct (_ || _); reflexivity.
+Qed.
+
+Lemma verify_fail_nothing : forall i e,
+  v_code (verify descr dec_descr true i e) <> 0%N ->
+  v_ret (verify descr dec_descr true i e) = None /\ v_meta (verify descr dec_descr true i e) = None.
+Proof.
+  intros i e. unfold verify. destruct (i_vtarget i) as [vd|vb vmt vok].
+  - unfold verify_oci.
+    destruct (negb (i_trusted i)); [split; reflexivity|].
+    destruct (dec_descr (e_payload descr e)) as [p|]; [|split; reflexivity].
+    destruct (final_code _ _ _); cbn; [congruence|split; reflexivity..].
+  - unfold verify_blob.
+    destruct (negb (vmt =? "") && negb vok); [split; reflexivity|].
+    destruct (negb _); [split; reflexivity|].
+    destruct (negb (i_trusted i)); [split; reflexivity|].
+    destruct (dec_descr (e_payload descr e)) as [p|]; [|split; reflexivity].
+    destruct (verifier_algorithms _) as [an|]; [|split; reflexivity].
+    destruct (b_readerr vb); [split; reflexivity|].
+    destruct (blob_descriptor vb vmt (i_vmeta i) an) as [desc|]; [|split; reflexivity].
+    destruct (final_code _ _ _); cbn; [congruence|split; reflexivity..].
+Qed.
+
+Lemma final_code_023 : forall m vm p, final_code m vm p = 0%N \/ final_code m vm p = 2%N \/ final_code m vm p = 3%N.
+Proof.
+  intros m vm p. rewrite final_code_cases. destruct (negb m && _); [auto|]. destruct (submap _ _); auto.
+Qed.
+
+(* which requests are refused before the expiry is looked at *)
+Lemma verify_code_14 : forall i e,
+  (e_format descr e = mt_jws \/ e_format descr e = mt_cose) ->
+  let c := v_code (verify descr dec_descr true i e) in
+  (c = 1%N -> i_trusted i = false) /\
+  (c = 4%N -> match i_vtarget i with TOCI _ => False | TBlob _ vmt vok => vmt <> "" /\ vok = false end).
+Proof.
+  intros i e Hf. unfold verify. destruct (i_vtarget i) as [vd|vb vmt vok].
+  - unfold verify_oci. destruct (i_trusted i); cbn [negb].
+    + destruct (dec_descr (e_payload descr e)) as [p|]; [|cbn; split; discriminate].
+      destruct (final_code_023 (negb (content_equal p vd)) (i_vmeta i) p) as [E|[E|E]]; rewrite E; cbn; split; discriminate.
+    + cbn. split; [reflexivity|discriminate].
+  - unfold verify_blob.
+    destruct (negb (vmt =? "") && negb vok) eqn:M.
+    + cbn. split; [discriminate|]. intros _. apply andb_split in M. destruct M as [M1 M2].
+      apply negb_true_iff in M1, M2. apply String.eqb_neq in M1. split; assumption.
+    + replace ((e_format descr e =? mt_jws) || (e_format descr e =? mt_cose)) with true
+        by (destruct Hf as [E|E]; rewrite E; reflexivity).
+      cbn [negb]. destruct (i_trusted i); cbn [negb]; [|cbn; split; [reflexivity|discriminate]].
+      destruct (dec_descr (e_payload descr e)) as [p|]; [|cbn; split; discriminate].
+      destruct (verifier_algorithms _) as [an|]; [|cbn; split; discriminate].
+      destruct (b_readerr vb); [cbn; split; discriminate|].
+      destruct (blob_descriptor vb vmt (i_vmeta i) an) as [desc|]; [|cbn; split; discriminate].
+      match goal with |- context [final_code ?m ?vm ?p] => destruct (final_code_023 m vm p) as [E|[E|E]]; rewrite E end;
+        cbn; split; discriminate.
+Qed.
+
+(* after the expiry a signature of a well-formed input is still produced, and does not verify:
+   nothing is returned; the refusal is "expired" unless the request was refused before (signer
+   not trusted, invalid content media type) *)
+Lemma model_at_after : forall vnow i, wf i = true -> input_expired vnow i = true ->
+  let o := model_at vnow i in
+  o_sign o = 0%N /\ o_verify o <> 0%N /\ o_ret o = None /\ o_meta o = None /\
+  (i_trusted i = true ->
+   match i_vtarget i with TOCI _ => True | TBlob _ vmt vok => vmt = "" \/ vok = true end ->
+   o_verify o = 6%N).
+Proof.
+  intros vnow i Hwf Hex o. destruct (wf_row i Hwf) as (kn & a & hn & an & Hrow).
+  destruct (wf_elim i Hwf) as (Hl & _). pose proof (legal_elim i kn a hn an Hl Hrow) as LF.
+  subst o. unfold model_at. cbv zeta. rewrite (csign_closed i kn a hn an Hwf Hrow).
+  cbn [r_env r_err r_shash r_plugsig r_plugenv o_sign o_verify o_ret o_meta]. unfold verify_at.
+  rewrite expired_exp_env_i, Hex.
+  set (e := exp_env descr idc i a an).
+  assert (Hf : e_format descr e = mt_jws \/ e_format descr e = mt_cose) by (destruct LF; assumption).
+  destruct (verify_code_14 i e Hf) as [K1 K4]. cbv zeta in K1, K4.
+  pose proof (verify_fail_nothing i e) as N.
+  destruct (v_code (verify descr dec_descr true i e) =? 4)%N eqn:E4; cbn [orb].
+  - apply N.eqb_eq in E4. destruct N as [N1 N2]; [congruence|]. repeat split; try assumption; try congruence.
+    intros _ Hm. specialize (K4 E4). destruct (i_vtarget i) as [|vb vmt vok]; [contradiction|].
+    destruct K4 as [K K']. destruct Hm as [Hm|Hm]; congruence.
+  - destruct (v_code (verify descr dec_descr true i e) =? 1)%N eqn:E1.
+    + apply N.eqb_eq in E1. destruct N as [N1 N2]; [congruence|]. repeat split; try assumption; try congruence.
+      intros Ht _. specialize (K1 E1). congruence.
+    + cbn. repeat split; try discriminate.
+Qed.
+
+Lemma tspec_model_at : forall vnow i, wf i = true -> tspec_ok vnow i (model_at vnow i) = true.
+Proof.
+  intros vnow i Hwf. unfold tspec_ok. destruct (input_expired vnow i) eqn:E; cbn [negb].
+  - rewrite Hwf. cbn [negb]. destruct (model_at_after vnow i Hwf E) as (A1 & A2 & A3 & A4 & _).
+    rewrite A1, A3, A4. destruct (o_verify (model_at vnow i)); [congruence|reflexivity].
+  - rewrite (model_at_before vnow i Hwf E). apply model_spec_ok. exact Hwf.
+Qed.
+
+(* a blob signed for one second by an envelope plugin, verified 5 s later / 0.5 s later *)
+Definition tex_blob : input :=
+  mk_input (TBlob ex_blob_b "text/plain" true) (Plug false true "EC-384") (mk_ks KEC 384) mt_jws [("releasedBy", "me")] second
+           "" 1700000000999999999 ex_consts true (TBlob ex_blob_b "text/plain" true) [].
+
+Lemma example_expired_blob :
+  wf tex_blob = true /\ input_expired 1700000005000000000 tex_blob = true /\
+  o_sign (model_at 1700000005000000000 tex_blob) = 0%N /\ o_verify (model_at 1700000005000000000 tex_blob) = 6%N /\
+  o_vhash (model_at 1700000005000000000 tex_blob) = None /\
+  input_expired 1700000000999999999 tex_blob = false /\ o_verify (model_at 1700000000999999999 tex_blob) = 0%N.
+Proof. repeat split; vm_compute; reflexivity. Qed.
